@@ -4,8 +4,8 @@
 //! Each case calls the function directly and through `Impl<T>` and compares the recorded
 //! (function, arguments) trace and the result.
 //! The impl-block and parameter-name cases make it a probe of C07 and C16 as well.
-//! The entraited-trait cases make it a probe of C06 too.
-//! ALSO: C06 C07 C16
+//! The entraited-trait and concrete-dependency cases make it a probe of C05 and C06 too.
+//! ALSO: C05 C06 C07 C16
 use entrait::*;
 use std::cell::RefCell;
 
@@ -57,8 +57,37 @@ macro_rules! impl_block {
     };
 }
 
-// the three kinds of entraited traits (a `macro_rules!`-stamped function with a *concrete* dependency is not
-// supported by the unchanged crate: E0424, `self` hygiene of the nested invocation — DESIGN §9, noted)
+// the dependency binding written in the macro body while the trait is named by the caller: the forwarded `self`
+// must carry the hygiene of the receiver it refers to (E0424 before fix "self span"), for generic, by-value and
+// concrete dependencies and inside modules
+macro_rules! body_dep {
+    ($Tr:ident, $f:ident, $x:ident) => {
+        #[entrait($Tr)]
+        fn $f(deps: &impl std::any::Any, k: i64, $x: i64) -> i64 { let _ = deps; rec(stringify!($f), &[k, $x]); k * 10 + $x }
+    };
+}
+macro_rules! body_dep_mod {
+    ($Tr:ident, $m:ident, $f:ident, $x:ident) => {
+        #[entrait(pub $Tr)]
+        mod $m {
+            use super::rec;
+            pub fn $f(deps: &impl std::any::Any, k: i64, $x: i64) -> i64 { let _ = deps; rec(stringify!($f), &[k, $x]); k * 10 + $x }
+        }
+    };
+}
+macro_rules! body_dep_by_value {
+    ($Tr:ident, $f:ident, $x:ident) => {
+        #[entrait($Tr)]
+        fn $f<D: Send + 'static>(deps: D, k: i64, $x: i64) -> i64 { let _ = deps; rec(stringify!($f), &[k, $x]); k * 10 + $x }
+    };
+}
+macro_rules! concrete_dep {
+    ($Tr:ident, $f:ident, $x:ident) => {
+        #[entrait($Tr)]
+        fn $f(app: &App, k: i64, $x: i64) -> i64 { let _ = app; rec(stringify!($f), &[k, $x]); k * 10 + $x }
+    };
+}
+// the three kinds of entraited traits
 macro_rules! entraited_traits {
     ($TrSelf:ident, $TrRef:ident, $TrBorrow:ident, $f:ident, $g:ident, $h:ident, $x:ident) => {
         #[entrait]
@@ -83,6 +112,10 @@ three_params_mod!(C2, c2m, c2, _d, j, k);
 by_value_dep!(D1, d1, _d, k);
 impl_block!(E1, E1Impl, SelE1, e1, _d, k);
 entraited_traits!(G1, G2, G3, g1, g2, g3, k);
+body_dep!(H1, h1, k);
+body_dep_mod!(H2, h2m, h2, k);
+body_dep_by_value!(H3, h3, k);
+concrete_dep!(H4, h4, k);
 
 fn check(name: &str, direct: impl FnOnce() -> i64, via: impl FnOnce() -> i64, bad: &mut u32) {
     let r1 = direct();
@@ -110,6 +143,10 @@ fn main() {
     check("g1", || App.g1(2, 3), || app.g1(2, 3), &mut bad);
     check("g2", || App.g2(2, 3), || app.g2(2, 3), &mut bad);
     check("g3", || App.g3(2, 3), || app.g3(2, 3), &mut bad);
-    println!("C01-PROBE cases=12 failed={bad}");
+    check("h1", || h1(&app, 2, 3), || app.h1(2, 3), &mut bad);
+    check("h2", || h2m::h2(&app, 2, 3), || app.h2(2, 3), &mut bad);
+    check("h3", || h3(Impl::new(App), 2, 3), || Impl::new(App).h3(2, 3), &mut bad);
+    check("h4", || h4(&App, 2, 3), || app.h4(2, 3), &mut bad);
+    println!("C01-PROBE cases=16 failed={bad}");
     std::process::exit(if bad == 0 { 0 } else { 1 });
 }
